@@ -36,7 +36,7 @@ impl Live {
     pub fn new(slots: usize) -> Live {
         let wanted = [
             "complete-6B", "complete-reuse", "complete-oversize", "first-id0-6B-X", "inter-id0-X", "end-id0-X", "first-alias0-bcast-Y", "inter-alias0-Y", "end-id0-bad-crc", "inter-id0-oversize",
-            "first-id1-3B-Y", "end-id1-Y",
+            "first-id1-3B-Y", "end-id1-Y", "complete-opt-then-unknown-mandatory-ext", "complete-reuse-with-opt-ext", "complete-opt-ext",
         ];
         let all = alphabet(slots);
         let pkts: Vec<Pkt> = wanted.iter().filter(|w| slots > 1 || !w.contains("id1")).filter_map(|w| all.iter().find(|p| p.name == *w).cloned()).collect();
@@ -203,7 +203,9 @@ pub fn live_pass(rep: &Report, prop: &str, oracle: Oracle, slots: usize, depth: 
                             }
                         }
                         acc.compared += 1;
-                        let delivered = matches!(&last, DecapOut::Completed { buf, meta, .. } if meta.pdu_len == 4 && buf[..4] == pdu_z);
+                        // bytes AND metadata (label, protocol type, no extensions) must be the probe's own
+                        let (want_l, want_pt) = match *pn { "complete" => (L6B, 0x86DDu16), "train-id0" => (L6B, 0x0800), _ => (L3B, 0x0800) };
+                        let delivered = matches!(&last, DecapOut::Completed { buf, meta, .. } if meta.pdu_len == 4 && buf[..4] == pdu_z && meta.label == want_l && meta.pt == want_pt && meta.exts.is_empty());
                         if !(all_ok && delivered) {
                             rep.violation(&format!("{}|live|{}-probe|{}", prop, pn, last.class()), hist.len() as u64, || (format!("live history {:?}, then reset + provision: the {} probe is not delivered: {}", names(), pn, last.brief()), json!({"live_history": names(), "slots": slots, "probe": pk.iter().map(|b| hex(b)).collect::<Vec<_>>()})));
                         }
